@@ -58,6 +58,7 @@ func heredocRules() lexer.Rules {
 	return lexer.Rules{
 		"Root": {
 			{Name: "Heredoc", Pattern: `<<([A-Za-z.*+]+)\n`, Action: lexer.Push("Heredoc")},
+			{Name: "Bare", Pattern: `<<<\n`, Action: lexer.Push("Heredoc")}, // enters the state without the group \1 needs
 			{Name: "Ident", Pattern: `[a-z]+`},
 			{Name: "WS", Pattern: `\s+`},
 		},
@@ -258,6 +259,9 @@ func c09Child(c *mon.Child) {
 		var hcases []hcase
 		for i := 0; i < 12; i++ {
 			in := heredocInput(hr)
+			if i%4 == 3 {
+				in += "x <<<\nbody\n" // a back-reference to a group the entering rule did not capture: an error, every time
+			}
 			lx, _ := freshDef.LexString("h", in)
 			hcases = append(hcases, hcase{in, toksCanon(lexer.ConsumeAll(lx)), sharedDef})
 		}
@@ -294,8 +298,13 @@ func c09Child(c *mon.Child) {
 				for i := 0; i < len(hcases); i++ {
 					hc := hcases[(i+g)%len(hcases)]
 					t0 := atomic.AddInt64(&clock, 1)
-					lx, _ := hc.def.LexString("h", hc.in)
-					got := toksCanon(lexer.ConsumeAll(lx))
+					var got string
+					if pn, pv, _ := mon.Guard(func() {
+						lx, _ := hc.def.LexString("h", hc.in)
+						got = toksCanon(lexer.ConsumeAll(lx))
+					}); pn {
+						got = "PANIC " + pv
+					}
 					t1 := atomic.AddInt64(&clock, 1)
 					res.intervals = append(res.intervals, c09Interval{"backref-definition", g, t0, t1})
 					res.n++
